@@ -149,6 +149,8 @@ def run_model(model_driver, cf, timeout, env):
     if lines and lines[-1] == "":
         lines.pop()
     nsh = min(int(os.environ.get("VERIF_MODEL_SHARDS", "12")), len(lines) // 24)
+    if lines and max(len(l) for l in lines) > 1000000:
+        nsh = min(nsh, 4)       # megabyte-sized rows (deep nesting, 200 000 unknown fields) cost the model about 8 GB each
     if nsh <= 1:
         rc, so, se = C.run([model_driver, cf], check=False, timeout=timeout, env=env)
         if rc != 0:
